@@ -64,6 +64,11 @@ def summarize(outs):
 
 def run(loader, R, tier):
     prog = loader()
+    from selib import signpred
+    R.rule("R6.0", "is_negative/is_zero/is_positive of Integer, Rational, "
+                   "RealDouble are the comparisons of the value with 0 "
+                   "(grounds the trusted atom table)")
+    signpred.ground(prog, R, "R6.0")
     D = NumDomain(prog)
     I = Interp(prog, D)
     R.exhaustive = True
